@@ -33,6 +33,9 @@ CLAIMED["C20"] = ("exploration", "2-3 caller threads on a shared image under shu
 CLAIMED["C06"] = ("exploration", "seeded histories of region-of-interest requests and renders on one long-lived decoder (state carried across requests) against a fresh full render",
     "Histories of 4-24 region requests / renders on one image per generated stream; each render compared with the rectangle of a fresh decoder's full render within 1e-6. The history dimension (caches and render handles surviving across requests) is what the simulation adds; inputs and rectangles are sampled.",
     "Self-consistency oracle. Modular only. Known findings F15/F14b are reported as KNOWN-FINDING.")
+CLAIMED["C05"] = ("exploration", "seeded histories of keyframe requests over generated multi-frame programs, checked against an executable reference compositor fed with separately decoded frames",
+    "A small executable model (4 reference slots + the blend formulas) is compared with every keyframe the library renders, over seeded multi-frame programs and seeded request histories (order, repetition). The history dimension (slots are stateful: blend() resets evicted handles, cached blends are reused) is what the simulation adds; inputs are sampled.",
+    "Frames' own samples come from the library's decode of standalone streams. Known finding F14c is reported as KNOWN-FINDING.")
 NOT_APPLICABLE = {}
 
 def main():
